@@ -1,10 +1,260 @@
-/- Driver for `kind = "c09"` (and `"c09:…"`) cases. -/
+/- Driver for `kind = "c09:…"` cases: the independent implementation of docs/storage.md
+   (`Model/StorageScheme.lean` over the executable crypto specifications) reads stores the library wrote
+   (`c09:read`, `c09:golden`), writes stores the library must read (`c09:write`), states the documented constants
+   (`c09:consts`) and is itself cross-checked against the crates the library uses (`c09:b58`, `c09:cbor`). -/
 import Driver.Common
+import AskarModel.Model.StorageScheme
 
 open Lean
+open Askar Askar.Crypto Askar.StorageScheme
 
 namespace Driver.C09
 
-def runCase (_j : Json) : Json := jerr "not implemented"
+def P : Prims := Prims.real
+
+/-! ### canonical forms (shared with harness/src/canon.rs: `Rec::to_json`, `Tag::to_json`) -/
+
+def jtext (b : Bytes) : Json :=
+  match String.fromUTF8? b.toByteArray with
+  | some s => .str s
+  | none => Json.mkObj [("err", .str "not-utf8"), ("hex", jhex b)]
+
+def tagLe (a b : Tag) : Bool :=
+  if a.plain != b.plain then !a.plain
+  else if a.name != b.name then Bytes.lt a.name b.name
+  else Bytes.le a.value b.value
+
+def jtag (t : Tag) : Json := .arr #[jnat (if t.plain then 1 else 0), jtext t.name, jtext t.value]
+
+def jrec (r : Rec) : Json :=
+  Json.mkObj [("k", jint r.kind), ("c", jtext r.cat), ("n", jtext r.name), ("v", jvalue r.value),
+              ("t", .arr ((r.tags.mergeSort tagLe).map jtag).toArray)]
+
+def jstrs (l : List String) : Json := .arr (l.map Json.str).toArray
+
+/-! ### parsing the raw dump -/
+
+def idx (j : Json) (i : Nat) : Json := (asArr j).getD i .null
+def jInt (j : Json) : Int := (j.getInt?).toOption.getD 0
+def jHex (j : Json) : Bytes := (Bytes.ofHex (asStr j)).getD []
+def jStrOpt (j : Json) : Option String := match j with | .str s => some s | _ => none
+
+def parseRaw (j : Json) : RawStore :=
+  { config := (arr! j "config").map fun r => (asStr (idx r 0), asStr (idx r 1))
+    profiles := (arr! j "profiles").map fun r => ⟨jInt (idx r 0), asStr (idx r 1), jHex (idx r 2)⟩
+    items := (arr! j "items").map fun r =>
+      ⟨jInt (idx r 0), jInt (idx r 1), jInt (idx r 2), jHex (idx r 3), jHex (idx r 4), jHex (idx r 5), jStrOpt (idx r 6)⟩
+    tags := (arr! j "tags").map fun r => ⟨jInt (idx r 1), jHex (idx r 2), jHex (idx r 3), jInt (idx r 4) != 0⟩ }
+
+def cfg (s : RawStore) (k : String) : Option String := (s.config.find? fun e => e.1 = k).map (·.2)
+
+/-! ### reading a store the library wrote -/
+
+/-- the store key the document prescribes for this store, from the `key` entry, the pass key and — for derived keys —
+    the Argon2i output computed by the harness with the DOCUMENTED parameters -/
+def resolveStoreKey (j : Json) (ref : KeyRef) : Except String (Option Bytes) :=
+  match ref with
+  | .unprotected => .ok none
+  | .raw =>
+    match rawStoreKey (str! j "pass") with
+    | some k => .ok (some k)
+    | none => .error "raw-pass-key-not-base58-of-32-bytes"
+  | .argon2i l salt =>
+    match getD? j "kdf" with
+    | none => .error "no-derived-key-supplied"
+    | some k =>
+      -- the harness states which documented parameter set and salt it used; both must be the ones of the key entry
+      if str! k "level" != String.ofList l.str then .error "kdf-level-differs"
+      else if hex! k "salt" != salt then .error "kdf-salt-differs"
+      else if nat! k "mem_kib" != l.params.memKiB || nat! k "passes" != l.params.passes || nat! k "lanes" != l.params.lanes
+              || nat! k "version" != l.params.version || str! k "variant" != l.params.variant then .error "kdf-params-not-documented"
+      else
+        let sk := hex! k "key"
+        if sk.length = keyLen then .ok (some sk) else .error "derived-key-length"
+
+def readStore (j : Json) : Json :=
+  let s := parseRaw ((j.getObjVal? "raw").toOption.getD .null)
+  let keyEntry := cfg s "key"
+  let ref := keyEntry.bind KeyRef.parse
+  let config := Json.mkObj [
+    ("default_profile", match cfg s "default_profile" with | some d => .str d | none => .null),
+    -- the key entry, re-serialised by the spec from its own parse: equal to the stored text iff the stored text has the documented form
+    ("key", match ref with | some r => .str r.toUri | none => jerr "key-entry-not-in-documented-form"),
+    ("version", match cfg s "version" with
+                | some v => if v = schemaVersion then .str schemaVersion else jerr "version"
+                | none => jerr "version-missing"),
+    ("names", jstrs ((s.config.map (·.1)).mergeSort fun a b => a ≤ b))]
+  match ref with
+  | none => Json.mkObj [("config", config), ("err", .str "key-entry")]
+  | some r =>
+    match resolveStoreKey j r with
+    | .error e => Json.mkObj [("config", config), ("err", .str e)]
+    | .ok sk =>
+      let keys : List (RawProfile × Option ProfileKey) := s.profiles.map fun p => (p, unwrapProfileKey P sk p.key)
+      -- the unwrapped profile key, re-encoded by the spec's CBOR encoder, must reproduce the stored bytes
+      let canonical := s.profiles.all fun p =>
+        match unwrapProfileKey P sk p.key with
+        | none => false
+        | some k =>
+          match sk with
+          | none => k.toCbor == p.key
+          | some key => (decryptField P key p.key) == some k.toCbor
+      let profiles := keys.map fun (p, k) =>
+        match k with
+        | none => (p.name, jerr "profile-key")
+        | some k =>
+          let recs := (s.items.filter fun it => it.pid == p.id).map fun it =>
+            match decryptRec P k it (s.tags.filter fun t => t.itemId == it.id) with
+            | some r => jrec r
+            | none => Json.mkObj [("err", .str "row-does-not-decrypt"), ("id", jint it.id)]
+          (p.name, Json.arr recs.toArray)
+      -- deterministic fields: re-encrypt the decrypted plaintext with the spec; must reproduce the stored bytes
+      let det := s.items.map fun it =>
+        match (keys.find? fun e => e.1.id == it.pid).bind (·.2) with
+        | none => jerr "no-profile-key"
+        | some k =>
+          match decryptRec P k it (s.tags.filter fun t => t.itemId == it.id) with
+          | none => jerr "row-does-not-decrypt"
+          | some r =>
+            let (ri, rts) := encryptRec P k it.id it.pid (it.value.take nonceLen) r
+            .arr #[jhex ri.cat, jhex ri.name, jhex ri.value,
+                   .arr (rts.map fun t => Json.arr #[jhex t.name, jhex t.value, jnat (if t.plaintext then 1 else 0)]).toArray]
+      Json.mkObj [("config", config), ("profiles", Json.mkObj profiles), ("det", .arr det.toArray),
+                  ("spec_verdict", Json.mkObj [("profile_keys_canonical_cbor", .bool canonical)])]
+
+/-! ### writing a store the library must read -/
+
+def parseTag (j : Json) : Tag := ⟨jInt (idx j 0) != 0, utf8 (asStr (idx j 1)), utf8 (asStr (idx j 2))⟩
+
+def futureExpiry : String := "2100-01-01T00:00:00+00:00"
+def pastExpiry : String := "2001-01-01T00:00:00+00:00"
+
+def parseRec (j : Json) : Rec × Bytes :=
+  ({ kind := int! j "k", cat := utf8 (str! j "c"), name := utf8 (str! j "n"), value := value! j "v",
+     tags := (arr! j "t").map parseTag,
+     expiry := match strOpt j "exp" with
+               | some "future" => some futureExpiry
+               | some "past" => some pastExpiry
+               | _ => none },
+   hex! j "nonce")
+
+def parseProfileKey (j : Json) : ProfileKey :=
+  ⟨hex! j "ick", hex! j "ink", hex! j "ihk", hex! j "tnk", hex! j "tvk", hex! j "thk"⟩
+
+def parseKeyRef (j : Json) : KeyRef × Option Bytes :=
+  match str! j "method" with
+  | "none" => (.unprotected, none)
+  | "raw" => (.raw, rawStoreKey (str! j "pass"))
+  | m => (.argon2i (if m == "kdf:int" then .interactive else .moderate) (hex! j "salt"), some (hex! j "store_key"))
+
+/-- all rows of the store described by the case; item ids and tag ids count up from 1 in case order -/
+def buildStore (j : Json) : RawStore :=
+  let (ref, sk) := parseKeyRef j
+  let profs := (arr! j "profiles").zipIdx
+  let step := fun (acc : List RawItem × List RawTag × Int) (pk : ProfileKey × Int × Json) =>
+    let (items, tags, next) := acc
+    let (k, pid, rj) := pk
+    let (r, nonce) := parseRec rj
+    let (it, ts) := encryptRec P k next pid nonce r
+    (items ++ [it], tags ++ ts, next + 1)
+  let all : List (ProfileKey × Int × Json) := profs.flatMap fun (pj, i) =>
+    (arr! pj "recs").map fun rj => (parseProfileKey ((pj.getObjVal? "key").toOption.getD .null), (i : Int) + 1, rj)
+  let (items, tags, _) := all.foldl step ([], [], 1)
+  { config := configRows (str! j "default_profile") ref
+    profiles := profs.map fun (pj, i) =>
+      ⟨(i : Int) + 1, str! pj "name",
+       wrapProfileKey P sk (hex! pj "wrap_nonce") (parseProfileKey ((pj.getObjVal? "key").toOption.getD .null))⟩
+    items := items, tags := tags }
+
+def jopt (s : Option String) : Json := match s with | some x => .str x | none => .null
+
+def rowsJson (s : RawStore) : Json :=
+  Json.mkObj [
+    ("config", .arr (s.config.map fun (k, v) => Json.arr #[.str k, .str v]).toArray),
+    ("profiles", .arr (s.profiles.map fun p => Json.arr #[jint p.id, .str p.name, jhex p.key]).toArray),
+    ("items", .arr (s.items.map fun it =>
+        Json.arr #[jint it.id, jint it.pid, jint it.kind, jhex it.cat, jhex it.name, jhex it.value, jopt it.expiry]).toArray),
+    ("tags", .arr (s.tags.map fun t => Json.arr #[jint t.itemId, jhex t.name, jhex t.value, jnat (if t.plaintext then 1 else 0)]).toArray)]
+
+/-- what a conforming reader must show for the written store: the spec reads its own rows back -/
+def writeStore (j : Json) : Json :=
+  let s := buildStore j
+  if str! j "emit" == "rows" then rowsJson s
+  else
+    let (_, sk) := parseKeyRef j
+    let profiles := s.profiles.map fun p =>
+      match unwrapProfileKey P sk p.key with
+      | none => (p.name, jerr "profile-key")
+      | some k =>
+        let recs := ((s.items.filter fun it => it.pid == p.id).filter fun it => it.expiry != some pastExpiry).map fun it =>
+          match decryptRec P k it (s.tags.filter fun t => t.itemId == it.id) with
+          | some r => jrec r
+          | none => Json.mkObj [("err", .str "row-does-not-decrypt"), ("id", jint it.id)]
+        (p.name, Json.arr recs.toArray)
+    Json.mkObj [("default_profile", .str (str! j "default_profile")), ("profiles", Json.mkObj profiles),
+                ("n_items", jnat s.items.length), ("n_tags", jnat s.tags.length)]
+
+/-! ### the documented constants, in the shape the harness extracts them from the source -/
+
+def paramsJson (p : Argon2Params) : Json :=
+  Json.mkObj [("alg", .str p.variant), ("version", .str ("V0x" ++ String.ofList (Nat.toDigits 16 p.version))),
+              ("mem_cost", jnat p.memKiB), ("time_cost", jnat p.passes)]
+
+def consts : Json :=
+  Json.mkObj [
+    ("argon2", Json.mkObj [("PARAMS_INTERACTIVE", paramsJson Level.interactive.params),
+                           ("PARAMS_MODERATE", paramsJson Level.moderate.params),
+                           ("salt_len", jnat saltLen),
+                           ("LEVEL_INTERACTIVE", .str ("13:" ++ String.ofList Level.interactive.str)),
+                           ("LEVEL_MODERATE", .str ("13:" ++ String.ofList Level.moderate.str))]),
+    ("prefixes", jstrs ["kdf", "raw", "none", "argon2i"]),
+    ("cbor", Json.mkObj [("tag", .str "ver"), ("tag_value", .str "1"),
+                         ("fields", jstrs ["ick", "ink", "ihk", "tnk", "tvk", "thk"])]),
+    ("config_rows", jstrs ["default_profile", "key", "version"]),
+    ("version", .str schemaVersion),
+    ("sizes", Json.mkObj [("nonce", jnat nonceLen), ("tag", jnat tagLen), ("key", jnat keyLen)]),
+    ("schema", .arr (schema.map fun (t, cols) =>
+        Json.arr #[.str t, .arr (cols.map fun (n, ty, nn, pk) => Json.arr #[.str n, .str ty, .bool nn, .bool pk]).toArray]).toArray)]
+
+/-! ### cross-checks of the codecs against the crates the library uses -/
+
+def b58 (j : Json) : Json :=
+  let ops := (arr! j "ops").map fun o =>
+    match str! o "op" with
+    | "enc" => Json.str (Base58.encodeStr (hex! o "b"))
+    | _ =>
+      match Base58.decodeStr (str! o "s") with
+      | some b => jhex b
+      | none => jerr "Input"
+  .arr ops.toArray
+
+def cborOps (j : Json) : Json :=
+  let ops := (arr! j "ops").map fun o =>
+    match str! o "op" with
+    | "enc" => jhex (parseProfileKey o).toCbor
+    | _ =>
+      match ProfileKey.ofCbor (hex! o "b") with
+      | some k => Json.arr #[jhex k.ick, jhex k.ink, jhex k.ihk, jhex k.tnk, jhex k.tvk, jhex k.thk]
+      | none => jerr "Unsupported"
+  .arr ops.toArray
+
+/-- TEST vectors of the repository's own unit tests (`hmac_expected`), plus the specifications' self tests -/
+def selfTest : Json :=
+  let x (s : String) : Bytes := (Bytes.ofHex s).getD []
+  Json.mkObj [
+    ("cbor", .bool Cbor.selfTest), ("base58", .bool Base58.selfTest),
+    ("hmac", .bool Hmac.selfTest), ("chachapoly", .bool ChaChaPoly.selfTest),
+    ("hmac_expected", .bool (searchableNonce P (x "c32ef97a2eed6316ae9b0d3129554358980ee6e0b21b81625229c191a3469f7e") (utf8 "test message")
+                             == x "4cecfbf6be721395529be686"))]
+
+def runCase (j : Json) : Json :=
+  match str! j "kind" with
+  | "c09:read" | "c09:golden" => readStore j
+  | "c09:write" => writeStore j
+  | "c09:consts" => consts
+  | "c09:b58" => b58 j
+  | "c09:cbor" => cborOps j
+  | "c09:selftest" => selfTest
+  | k => jerr ("unknown kind " ++ k)
 
 end Driver.C09
